@@ -9,7 +9,24 @@ HEADER = ('<?xml version="1.0" encoding="utf-8"?>\n'
 SLOT = "\x01"
 
 
+# how the text of an element is written: "entities" (default) | "cdata" (one CDATA section) | "cdata-split" (escaped text
+# followed by a CDATA section) | "charrefs" (numeric character references for the special characters and some letters)
+ENCODING = "entities"
+
+
 def esc(t):
+    if ENCODING == "cdata" and t and "]]>" not in t:
+        return "<![CDATA[" + t + "]]>"
+    if ENCODING == "cdata-split" and t and "]]>" not in t and len(t) > 2:
+        k = t.find(" ", len(t) // 2)
+        k = k if k > 0 else len(t) // 2
+        return _entities(t[:k]) + "<![CDATA[" + t[k:] + "]]>"
+    if ENCODING == "charrefs":
+        return "".join("&#%d;" % ord(ch) if ch in "&<>" else ("&#x%x;" % ord(ch) if ch in "gq=" else ch) for ch in t)
+    return _entities(t)
+
+
+def _entities(t):
     return t.replace("&", "&amp;").replace("<", "&lt;").replace(">", "&gt;")
 
 
